@@ -11,6 +11,7 @@ import (
 	"github.com/go-openapi/analysis/internal/flatten/schutils"
 	"github.com/go-openapi/analysis/internal/flatten/sortref"
 	"github.com/go-openapi/analysis/internal/verifhook"
+	"github.com/go-openapi/jsonpointer"
 	"github.com/go-openapi/spec"
 	"github.com/go-openapi/swag"
 )
@@ -37,13 +38,15 @@ func (isn *InlineSchemaNamer) Name(key string, schema *spec.Schema, aschema *Ana
 		mangle := mangler(isn.opts)
 		newName, isOAIGen := uniqifyName(isn.Spec.Definitions, mangle(name))
 
+		// the name may contain "/" or "~" (e.g. with KeepNames): escape it as a JSON pointer token
+		refToNew := spec.MustCreateRef(path.Join(definitionsPath, jsonpointer.Escape(newName)))
+
 		// clone schema
 		sch := schutils.Clone(schema)
 
 		// replace values on schema
 		debugLog("rewriting schema to ref: key=%s with new name: %s", key, newName)
-		if err := replace.RewriteSchemaToRef(isn.Spec, key,
-			spec.MustCreateRef(path.Join(definitionsPath, newName))); err != nil {
+		if err := replace.RewriteSchemaToRef(isn.Spec, key, refToNew); err != nil {
 			return ErrInlineDefinition(newName, err)
 		}
 
@@ -62,15 +65,14 @@ func (isn *InlineSchemaNamer) Name(key string, schema *spec.Schema, aschema *Ana
 				isn.opts.flattenContext.warnings = append(isn.opts.flattenContext.warnings, r.Warnings...)
 			}
 
-			if r.Ref.String() != key && (r.Ref.String() != path.Join(definitionsPath, newName) || path.Dir(v.String()) == definitionsPath) {
+			if r.Ref.String() != key && (r.Ref.String() != refToNew.String() || path.Dir(v.String()) == definitionsPath) {
 				continue
 			}
 
 			debugLog("found a $ref to a rewritten schema: %s points to %s", k, v.String())
 
 			// rewrite $ref to the new target
-			if err := replace.UpdateRef(isn.Spec, k,
-				spec.MustCreateRef(path.Join(definitionsPath, newName))); err != nil {
+			if err := replace.UpdateRef(isn.Spec, k, refToNew); err != nil {
 				return err
 			}
 		}
@@ -96,7 +98,7 @@ func (isn *InlineSchemaNamer) Name(key string, schema *spec.Schema, aschema *Ana
 		isn.flattenContext.newRefs[key] = &newRef{
 			key:      key,
 			newName:  newName,
-			path:     path.Join(definitionsPath, newName),
+			path:     path.Join(definitionsPath, jsonpointer.Escape(newName)),
 			isOAIGen: isOAIGen,
 			resolved: resolved,
 			schema:   sch,
